@@ -25,29 +25,30 @@ const (
 
 // Params fully describe a scenario; a replay file carries exactly this record.
 type Params struct {
-	Idx          int       `json:"idx"`
-	Seed         uint64    `json:"seed"`
-	Mode         string    `json:"mode"` // direct uphttp uphttps socks5 connectfunc upgrade
-	Gated        bool      `json:"gated"`
-	Concrete     bool      `json:"concrete"`
-	Handler      bool      `json:"handler"`
-	Len          [2]int    `json:"len"`
-	Early        int       `json:"early"`
-	Banner       int       `json:"banner"`
-	Post         [2]int    `json:"post"`
-	Order        string    `json:"order"` // client_first target_first simultaneous
-	Seg          [2]string `json:"seg"`
-	HeadPieces   int       `json:"head_pieces"`
-	HeadPad      int       `json:"head_pad"`
-	Eager        bool      `json:"eager"`
-	Sched        [2]string `json:"sched"` // read schedule at LC, DC
-	SlowReader   [2]bool   `json:"slow_reader"`
-	ReplyVariant int       `json:"reply_variant"`
-	FnWrap       bool      `json:"fn_wrap"`
-	GraceMs      int       `json:"grace_ms"` // >0: scenario of the short-grace batch; second closer holds longer than the grace
-	HoldMs       int       `json:"hold_ms"`
-	TimeoutMs    int       `json:"timeout_ms"`
-	ReadTimeoutMs int      `json:"read_timeout_ms"` // >0: through the proxy instance configured with this ReadTimeout
+	Idx           int       `json:"idx"`
+	Seed          uint64    `json:"seed"`
+	Mode          string    `json:"mode"` // direct uphttp uphttps socks5 connectfunc upgrade
+	Gated         bool      `json:"gated"`
+	Concrete      bool      `json:"concrete"`
+	Handler       bool      `json:"handler"`
+	Len           [2]int    `json:"len"`
+	Early         int       `json:"early"`
+	Banner        int       `json:"banner"`
+	Post          [2]int    `json:"post"`
+	Order         string    `json:"order"` // client_first target_first simultaneous
+	Seg           [2]string `json:"seg"`
+	HeadPieces    int       `json:"head_pieces"`
+	HeadPad       int       `json:"head_pad"`
+	Eager         bool      `json:"eager"`
+	Sched         [2]string `json:"sched"` // read schedule at LC, DC
+	SlowReader    [2]bool   `json:"slow_reader"`
+	ReplyVariant  int       `json:"reply_variant"`
+	FnWrap        bool      `json:"fn_wrap"`
+	GraceMs       int       `json:"grace_ms"` // >0: scenario of the short-grace batch; second closer holds longer than the grace
+	HoldMs        int       `json:"hold_ms"`
+	TimeoutMs     int       `json:"timeout_ms"`
+	ViaProxy      bool      `json:"via_proxy"`       // upgrade: the request goes through a scripted upstream HTTP proxy
+	ReadTimeoutMs int       `json:"read_timeout_ms"` // >0: through the proxy instance configured with this ReadTimeout
 }
 
 // timedOut counts scenarios that hit their deadline in this run.
@@ -83,25 +84,25 @@ func (s *sink) feed(p []byte) {
 
 type scenario struct {
 	Params
-	rec     *recorder
-	payload [2][]byte
-	rmu     sync.Mutex
-	rr      *rng.R
-	sinks   [2]*sink // sinks[CT] is at the far endpoint, sinks[TC] at the client
-	shutT   [2]int64 // time the source endpoint of direction d called shutdown, -1 if never
-	head    []byte
-	reply   []byte
-	farPre  int // bytes the far endpoint consumed as protocol preamble
-	farHead int // bytes of the far endpoint's protocol reply preceding the tunnel payload
-	timeout atomic.Bool
+	rec        *recorder
+	payload    [2][]byte
+	rmu        sync.Mutex
+	rr         *rng.R
+	sinks      [2]*sink // sinks[CT] is at the far endpoint, sinks[TC] at the client
+	shutT      [2]int64 // time the source endpoint of direction d called shutdown, -1 if never
+	head       []byte
+	reply      []byte
+	farPre     int // bytes the far endpoint consumed as protocol preamble
+	farHead    int // bytes of the far endpoint's protocol reply preceding the tunnel payload
+	timeout    atomic.Bool
 	lcAttached atomic.Int64
-	emu     sync.Mutex
-	errs    []string
-	closedC map[string]chan struct{}
-	cmu     sync.Mutex
-	bar     [2]chan struct{}
-	deadline time.Time
-	farAddr string
+	emu        sync.Mutex
+	errs       []string
+	closedC    map[string]chan struct{}
+	cmu        sync.Mutex
+	bar        [2]chan struct{}
+	deadline   time.Time
+	farAddr    string
 }
 
 func genPayload(seed uint64, d int, n int) []byte {
@@ -394,8 +395,12 @@ func (sc *scenario) clientHead() []byte {
 	if sc.HeadPad > 0 {
 		pad = "X-Pad: " + strings.Repeat("p", sc.HeadPad) + "\r\n"
 	}
-	if sc.Mode == "upgrade" {
-		return []byte("GET http://" + host + "/tunnel HTTP/1.1\r\nHost: " + host + "\r\n" + pad +
+	if sc.Mode == "upgrade" || sc.Mode == "upgradetls" {
+		scheme := "http"
+		if sc.Mode == "upgradetls" {
+			scheme = "https"
+		}
+		return []byte("GET " + scheme + "://" + host + "/tunnel HTTP/1.1\r\nHost: " + host + "\r\n" + pad +
 			"Connection: Upgrade\r\nUpgrade: verif-tunnel\r\n\r\n")
 	}
 	return []byte("CONNECT " + host + " HTTP/1.1\r\nHost: " + host + "\r\n" + pad + "\r\n")
@@ -544,7 +549,7 @@ func (sc *scenario) runFar(l net.Listener, tlsCfg *tls.Config, wg *sync.WaitGrou
 	raw.SetDeadline(sc.deadline)
 	var conn net.Conn = raw
 	cw := raw.(*net.TCPConn).CloseWrite
-	if sc.Mode == "uphttps" {
+	if sc.Mode == "uphttps" || sc.Mode == "upgradetls" {
 		t := tls.Server(raw, tlsCfg)
 		if err := t.Handshake(); err != nil {
 			sc.errf("far tls handshake: %v", err)
@@ -576,7 +581,7 @@ func (sc *scenario) runFar(l net.Listener, tlsCfg *tls.Config, wg *sync.WaitGrou
 		}
 		sc.farPre, rest = len(h), r
 		replyHead = []byte(upReplies[sc.ReplyVariant%len(upReplies)])
-	case "upgrade":
+	case "upgrade", "upgradetls":
 		h, r, err := readUntilCRLFCRLF(conn)
 		if err != nil {
 			sc.errf("far reading upgrade request: %v", err)
@@ -651,22 +656,22 @@ type dirObs struct {
 }
 
 type result struct {
-	P          Params   `json:"params"`
+	P          Params    `json:"params"`
 	Dirs       [2]dirObs `json:"dirs"`
-	Reply      string   `json:"reply"`
-	Timeout    bool     `json:"timeout"`
-	ClosedUp   bool     `json:"closed_up"`
-	ClosedDown bool     `json:"closed_down"`
-	Errs       []string `json:"errs,omitempty"`
-	Events     int      `json:"events"`
-	WallMs     int64    `json:"wall_ms"`
-	Forced     bool     `json:"forced"`
-	ForceGapNs int64    `json:"force_gap_ns"`
-	EarlyN     int      `json:"early_in_bufio"`
-	SkipN      int      `json:"overread_by_reply_reader"`
-	KeptN      int      `json:"buffered_by_transport"`
-	Labels     int      `json:"labels"`
-	Problems   []string `json:"trace_problems,omitempty"`
+	Reply      string    `json:"reply"`
+	Timeout    bool      `json:"timeout"`
+	ClosedUp   bool      `json:"closed_up"`
+	ClosedDown bool      `json:"closed_down"`
+	Errs       []string  `json:"errs,omitempty"`
+	Events     int       `json:"events"`
+	WallMs     int64     `json:"wall_ms"`
+	Forced     bool      `json:"forced"`
+	ForceGapNs int64     `json:"force_gap_ns"`
+	EarlyN     int       `json:"early_in_bufio"`
+	SkipN      int       `json:"overread_by_reply_reader"`
+	KeptN      int       `json:"buffered_by_transport"`
+	Labels     int       `json:"labels"`
+	Problems   []string  `json:"trace_problems,omitempty"`
 }
 
 func (sc *scenario) observe() result {
